@@ -896,6 +896,7 @@ class Explorer:
                 self.named = []
                 self.counters = {}
                 self.log = []
+                FUEL.left = None            # a loop budget never leaks from one path (or one obligation in the same worker) into the next
                 self.solver.push()
                 CUR = self
                 self.stats.paths += 1
